@@ -431,6 +431,48 @@ def mon_interrupt_stamp(scn, run):
     return out
 
 
+def mon_interrupt_time_served(scn, run):
+    """C12: an interrupt raised by a top-level device in the middle of a master tick (tick time t, started at real d) is
+    served at a simulation time that corresponds to its arrival: some update of that device after the raise carries a time
+    >= t + floor((raise - d) * speed).  (An update inside the tick in progress, at time t, does not serve it unless no real
+    time had passed.)  Checked when the run went on for at least one more master tick after the tick in progress."""
+    out = []
+    tr = run["trace"]
+    tid = master_tid(run)
+    num, den = scn.get("speed", [1, 1])
+    calls = [e for e in tr.of("t-call") if e["tid"] == tid]
+    dones = [e for e in tr.of("t-done") if e["tid"] == tid]
+    top_devs = {c["name"] for c in scn["components"] if c["kind"] == "dev"}
+    quiet = {c["name"]: c.get("beh", {}).get("cb", {}).get("kind", "none") == "none" for c in scn["components"] if c["kind"] == "dev"}
+    ups = tr.of("update")
+    for R in tr.of("raise"):
+        if not R.get("ok") or R["comp"] not in top_devs:
+            continue
+        prev_calls = [c for c in calls if c["n"] < R["n"]]
+        prev_done = [d for d in dones if d["n"] < R["n"]]
+        if not prev_calls or len(prev_calls) == len(prev_done):
+            continue
+        cur = prev_calls[-1]
+        later_ticks = [c for c in calls if c["n"] > R["n"]]
+        later_done = [d for d in dones if later_ticks and d["n"] > later_ticks[0]["n"]]
+        if not later_done:
+            continue
+        exp = cur["time"] + ((R["real"] - cur["real"]) * num) // den
+        cur_done = next((d for d in dones if d["n"] > cur["n"]), None)
+        # handled at the latest when the tick in progress ends (callers use the synchronous bus): the stamp lies between the
+        # simulation times that correspond to the raise and to the end of that tick
+        hi = cur["time"] + -((-(cur_done["real"] - cur["real"]) * num) // den) + 1 if cur_done else None
+        if quiet.get(R["comp"]) is not True or hi is None:
+            continue   # a device with callbacks of its own may legitimately be served at an earlier, already requested time
+        served = [u for u in ups if u["comp"] == R["comp"] and u["n"] > R["n"] and exp - 1 <= u["time"] <= hi]
+        if not served:
+            seen = [u["time"] for u in ups if u["comp"] == R["comp"] and u["n"] > R["n"]]
+            out.append(V("interrupt-stamp-wrong", f"interrupt of {R['comp']} raised mid-tick at real={R['real']} (tick @{cur['time']} started real={cur['real']}, speed {num}/{den}): "
+                         f"its arrival corresponds to simulation time {exp} (at most {hi} when it is handled by the end of that tick), the device was afterwards updated only at {seen}", comp=R["comp"], phase="mid-tick-waiting"))
+    return out
+
+
+ALL_SIM_MONITORS["interrupt_time_served"] = mon_interrupt_time_served
 ALL_SIM_MONITORS["interrupts"] = mon_interrupts
 ALL_SIM_MONITORS["interrupt_stamp"] = mon_interrupt_stamp
 
